@@ -61,6 +61,8 @@ fn measure_with_flush_fault(m1: &RefMsg, reply: &RefMsg, flush_fault: Option<std
         s.first_read_stall = read_stall;
     }
     let n0 = st.borrow().log.len();
+    // a pending wake-up token on this thread: a pause built on park_timeout instead of sleep would return at once
+    std::thread::current().unpark();
     let r = catch(|| {
         let a = bus.process_message(refs::from_ref(m1)).map(|_| ()).map_err(|e| e.to_string());
         let t_ret = Instant::now();
@@ -342,6 +344,7 @@ fn chunk_run(rep: &mut Report, n: usize) {
     for i in 0..n {
         let m = RefMsg::Data { offset: ((i % 4096) * 16) as u16, data: vec![i as u8; 16] };
         st.borrow_mut().log.clear();
+        std::thread::current().unpark();
         let r = catch(|| bus.process_message(refs::from_ref(&m)).is_ok());
         if !matches!(r, Ok(true)) {
             rep.note("measure_error/chunk_run", J::s(format!("chunk #{} failed", i)));
@@ -384,6 +387,7 @@ fn session_of_length(rng: &mut crate::util::Rng, rep: &mut Report, n: usize) {
         let mut marks = vec![];
         for m in &msgs {
             let n0 = st.borrow().log.len();
+            std::thread::current().unpark();
             let ok = bus.process_message(refs::from_ref(&m.m)).is_ok();
             marks.push((n0, Instant::now(), ok));
         }
@@ -598,6 +602,7 @@ pub fn run(ctx: &Ctx) -> Outcome {
         floors,
         assumptions: vec![
             "thread::sleep never returns early and Instant is monotonic, so lower-bound assertions cannot false-alarm under load".into(),
+            "every measured call starts with a pending unpark token on the calling thread (a pause built on park_timeout would be cut short by it; sleep is not)".into(),
             "the 'not delayed' direction takes the minimum over repeated single-threaded trials against the smaller pacing value (30 ms)".into(),
             "measured at the port's write/read boundary with the process's monotonic clock; nothing is claimed about a real UART".into(),
         ],
